@@ -703,10 +703,10 @@ class RefG(G):
                     if r.random() < 0.6:
                         c[k]["minimum"] = 10 ** 9
         # an id on the path that changes the base for relative references below it
-        if r.random() < 0.2 and isinstance(root.get("properties"), dict) and root["properties"]:
+        if r.random() < 0.3 and isinstance(root.get("properties"), dict) and root["properties"]:
             pk = r.choice(list(root["properties"]))
             if isinstance(root["properties"][pk], dict) and "$ref" not in root["properties"][pk]:
-                root["properties"][pk][idk] = r.choice(["sub/", "http://ex.org/other/"])
+                root["properties"][pk][idk] = r.choice(["sub/", "http://ex.org/other/", "#frag", "#", "#/definitions/a"])
         return root, store, world, info
 
     def hist_ops(self, d, root, n):
